@@ -422,3 +422,42 @@ theorem blockout_progress (z : Sizes) (s : SzOk z) (e : Enc) (pk : List Pkt) (Nw
   all_goals simp
 
 end Vorbis.Block
+
+namespace Vorbis.Block
+
+/-- the window triple of a block handed out, and the encoder's window state afterwards -/
+theorem blockout_windows (z : Sizes) (s : SzOk z) (e : Enc) (bp : Int) (hcW : e.cW = z.bs1 / 2)
+    (e' : Enc) (p : Pkt) (h : e.blockout z bp = (e', some p)) :
+    p.lW = e.lW ∧ p.W = e.W ∧ (p.eos = false → e'.lW = p.W ∧ e'.W = p.nW ∧ e'.cW = z.bs1 / 2) := by
+  unfold Enc.blockout at h
+  by_cases hpre : (!e.pre) = true
+  · simp [hpre] at h
+  rw [if_neg hpre] at h
+  by_cases hdone : e.eof = -1
+  · simp [hdone] at h
+  rw [if_neg hdone] at h
+  by_cases hwait : bp = -1 ∧ e.eof = 0
+  · simp [hwait] at h
+  rw [if_neg hwait] at h
+  simp only [] at h
+  generalize (if bp = -1 then false else if z.bs0 = z.bs1 then false else decide (bp ≠ 0)) = nW at h
+  by_cases hroom : e.cur < e.cW + z.bs e.W / 4 + z.bs nW / 4 + z.bs nW / 2
+  · simp [hroom] at h
+  rw [if_neg hroom] at h
+  have hm := adv_pos z s e.W nW
+  have hmdef : e.cW + z.bs e.W / 4 + z.bs nW / 4 - z.bs1 / 2 = adv z e.W nW := by unfold adv; omega
+  by_cases heos : e.eof ≠ 0 ∧ e.cW ≥ e.eof
+  · simp only [heos, ne_eq, not_false_eq_true, and_self, if_true, Prod.mk.injEq, Option.some.injEq] at h
+    obtain ⟨_, rfl⟩ := h
+    exact ⟨rfl, rfl, fun hc => by simp at hc⟩
+  · simp only [heos, if_false] at h
+    rw [hmdef, if_pos hm.1] at h
+    by_cases h0 : e.eof = 0
+    · simp only [h0, ne_eq, not_true_eq_false, if_false, Prod.mk.injEq, Option.some.injEq] at h
+      obtain ⟨rfl, rfl⟩ := h
+      exact ⟨rfl, rfl, fun _ => ⟨rfl, rfl, rfl⟩⟩
+    · simp only [ne_eq, h0, not_false_eq_true, if_true, Prod.mk.injEq, Option.some.injEq] at h
+      obtain ⟨rfl, rfl⟩ := h
+      exact ⟨rfl, rfl, fun _ => ⟨rfl, rfl, rfl⟩⟩
+
+end Vorbis.Block
